@@ -54,6 +54,9 @@ impl Vm {
                     self.bp = 0;
                     self.ep = usize::MAX;
                     self.acc = VCell::Undefined;
+                    // what the abandoned evaluation allocated is garbage: a run of failing
+                    // evaluations must not grow the heap any more than a run of successful ones
+                    self.run_gc();
                     return Err(e);
                 }
             }
